@@ -243,7 +243,8 @@ def _packet_reader(ctx, R, roles, T):
 
 
 def _is_checksum_of(t, payload):
-    alts = set(t[1]) if t[0] == "phi" else {t}
+    from ..terms import alts_of
+    alts = alts_of(t)
     good = ("MOD32", ("BYTESUM", payload))
     legacy = ("MOD32", ("ORDSUM", payload))
     return good in alts and alts <= {good, legacy}
